@@ -67,8 +67,12 @@ def run(ctx):
     ctx.selftest_corrupt(TRACE, qf[0], corrupt_double_take, "a task returned by two pops")
     ctx.selftest_corrupt(TRACE, ef[0], corrupt_lost_task, "an accepted task never executed (left queued at the end)")
     ctx.selftest_corrupt(TRACE, pf[0], corrupt_shifted_map, "parallel_map result rotated by one position")
+    # --- extension: Pipeline::execute_stream / execute_two_stage, BatchCollector, async blob stores, fiber_yield,
+    # fiber_aio (spec/PipelineStream.tla, harness bin c18b, tools/props/C18b.py)
+    from props import C18b
+    C18b.run_ext(ctx)
     cov = ctx.cov
-    cov["evaluations"] = s_q.get("events", 0) + s_e.get("events", 0) + s_p.get("events", 0)
+    cov["evaluations"] = s_q.get("events", 0) + s_e.get("events", 0) + s_p.get("events", 0) + cov.get("ext_evaluations", 0)
     cov["distinct_nontrivial"] = s_q.get("runs", 0) + s_e.get("runs", 0) + s_p.get("runs", 0)
     cov["executor_configs"] = s_e.get("configs", 0)
     cov["executor_configs_with_unfinished_tasks"] = s_e.get("stuck_configs", 0)
@@ -89,6 +93,10 @@ def replay(ctx, path):
     ctx.seed = rep.get("seed", ctx.seed)
     ctx.tier = rep.get("tier", ctx.tier)
     fam = rep.get("reset", {}).get("fam")
+    if fam not in ("wsq", "wse", "par"):
+        from props import C18b
+        if hasattr(C18b, "replay_ext"):
+            return C18b.replay_ext(ctx, rep)
     mode = {"wsq": "queue", "wse": "exec", "par": "par"}.get(fam, "exec")
     s = ctx.harness(BIN, mode, "rp", timeout=1500)
     files = sorted(glob.glob(os.path.join(s["_out"], "*.ndjson")))
